@@ -207,6 +207,97 @@ def exact_hypotheses(p):
     return None
 
 
+
+def _fit_exact(pts, elev, sel_idx):
+    """weighted least-squares lattice of the selected points in exact arithmetic (Cramer); None if the design is singular.
+    Returns (zero, a, b, design) with design = (s1, si, sj, sii, sij, sjj)"""
+    s1 = si = sj = sii = sij = sjj = Fraction(0)
+    st = [Fraction(0), Fraction(0)]; sit = [Fraction(0), Fraction(0)]; sjt = [Fraction(0), Fraction(0)]
+    for k_, (i, j) in sel_idx:
+        w = elev[k_]
+        s1 += w; si += w * i; sj += w * j; sii += w * i * i; sij += w * i * j; sjj += w * j * j
+        for c in (0, 1):
+            st[c] += w * pts[k_][c]; sit[c] += w * i * pts[k_][c]; sjt[c] += w * j * pts[k_][c]
+
+    def det3(m):
+        return (m[0][0] * (m[1][1] * m[2][2] - m[1][2] * m[2][1]) - m[0][1] * (m[1][0] * m[2][2] - m[1][2] * m[2][0])
+                + m[0][2] * (m[1][0] * m[2][1] - m[1][1] * m[2][0]))
+    N = [[s1, si, sj], [si, sii, sij], [sj, sij, sjj]]
+    D = det3(N)
+    if D == 0:
+        return None
+    sol = []
+    for c in (0, 1):
+        rhs = [st[c], sit[c], sjt[c]]
+        col = []
+        for q in range(3):
+            M = [row[:] for row in N]
+            for r_ in range(3):
+                M[r_][q] = rhs[r_]
+            col.append(det3(M) / D)
+        sol.append(col)
+    zero = (sol[0][0], sol[1][0]); a = (sol[0][1], sol[1][1]); b = (sol[0][2], sol[1][2])
+    return zero, a, b, (s1, si, sj, sii, sij, sjj, D)
+
+
+def theorem_noisy(p):
+    """theorem noisy_inliers_kept, instantiated in exact arithmetic on a generated case: the peaks it guarantees to be in the
+    final selection with their true indices (None when a hypothesis -- round one selects node peaks only, with their true
+    indices, and the match is valid -- does not hold)"""
+    import math
+    pts = [tuple(_F(r)) for r in np.asarray(p["pts"], dtype=float)]
+    elev, kinds, ti = _F(p["elev"]), np.asarray(p["kind"]), np.asarray(p["true_idx"])
+    mw, tol = Fraction(float(p["min_weight"])), Fraction(float(p["tol"]))
+    z, a, b = _F(p["zero"]), _F(p["a"]), _F(p["b"])
+    z0, a0, b0 = _F(p["start_zero"]), _F(p["start_a"]), _F(p["start_b"])
+    if a0[0] * b0[1] - b0[0] * a0[1] == 0 or mw < 0 or tol <= 0:
+        return None
+    r1 = _exact_round(pts, z0, a0, b0, tol)
+    s1 = [(k_, r1[k_][1]) for k_, (m, _) in enumerate(r1) if m and elev[k_] >= mw]
+    for k_, r in s1:
+        if kinds[k_] != 0 or tuple(int(v) for v in ti[k_]) != r:
+            return None
+    if len(s1) < p["min_match"]:
+        return None
+    f1 = _fit_exact(pts, elev, s1)
+    if f1 is None:
+        return None
+    z1, a1, b1, (w1, si, sj, sii, sij, sjj, D) = f1
+    det1 = a1[0] * b1[1] - b1[0] * a1[1]
+    if det1 == 0:
+        return None
+    r2 = _exact_round(pts, z1, a1, b1, tol)
+    s2 = [(k_, r2[k_][1]) for k_, (m, _) in enumerate(r2) if m and elev[k_] >= mw]
+    if _fit_exact(pts, elev, s2) is None:
+        return None                                   # not a valid match in the model (degenerate / invalid)
+    # noise of the node peaks, per coordinate (node p = some (i, j) for the inliers, none for everything else)
+    eps = Fraction(0)
+    for k_ in range(len(pts)):
+        if kinds[k_] == 0:
+            i, j = (Fraction(int(v)) for v in ti[k_])
+            for c in (0, 1):
+                eps = max(eps, abs(pts[k_][c] - (z[c] + i * a[c] + j * b[c])))
+    na1, nb1 = a1[0] ** 2 + a1[1] ** 2, b1[0] ** 2 + b1[1] ** 2
+    kappa = na1 * nb1 / det1 ** 2
+    out = []
+    for k_ in range(len(pts)):
+        if kinds[k_] != 0 or elev[k_] < mw:
+            continue
+        i, j = (Fraction(int(v)) for v in ti[k_])
+        v = (Fraction(1), i, j)
+        adj = ((sii * sjj - sij * sij) * v[0] * v[0] + (w1 * sjj - sj * sj) * v[1] * v[1] + (w1 * sii - si * si) * v[2] * v[2]
+               + 2 * (sj * sij - si * sjj) * v[0] * v[1] + 2 * (si * sij - sii * sj) * v[0] * v[2]
+               + 2 * (si * sj - w1 * sij) * v[1] * v[2])
+        x = adj * eps ** 2 * w1 / D
+        d = Fraction(math.ceil(math.sqrt(float(x)) * 10 ** 6) + 1, 10 ** 6)
+        if d * d < x:
+            continue
+        e2 = (eps + d) ** 2
+        if 4 * kappa * e2 < tol ** 2 and 8 * kappa * e2 < min(na1, nb1):
+            out.append((k_, (int(i), int(j))))
+    return out
+
+
 def float_errors(pts, zero, a, b):
     ind = np.linalg.solve(np.array((a, b)).T, (pts - zero).T).T
     d = np.abs(ind - np.around(ind)) * (np.linalg.norm(a), np.linalg.norm(b))
@@ -376,6 +467,19 @@ def run_case(kind, p):
                     x = np.linalg.lstsq(A, pts[want] * np.sqrt(elev[want])[:, None], rcond=None)[0]
                     if np.abs(np.array([r.zero, r.a, r.b]) - x).max() > 1e-6 * max(1.0, np.abs(x).max()):
                         msgs.append("returned lattice is not the weighted least-squares fit of the selected peaks")
+            # theorem noisy_inliers_kept, instantiated exactly on this case: the peaks it guarantees must be selected with their indices
+            guaranteed = theorem_noisy(p) if p.get("theorem", True) else None
+            if guaranteed:
+                if is_invalid(r):
+                    msgs.append("theorem instance (noisy_inliers_kept): the model's match is valid, the implementation's is invalid")
+                else:
+                    pos = np.cumsum(r.selector) - 1
+                    ind = np.asarray(r.indices).reshape(-1, 2)
+                    for k_, ij in guaranteed:
+                        if not r.selector[k_]:
+                            msgs.append(f"theorem instance (noisy_inliers_kept): peak {k_} at node {ij} is guaranteed to be kept and is not selected")
+                        elif tuple(int(v) for v in ind[pos[k_]]) != ij:
+                            msgs.append(f"theorem instance (noisy_inliers_kept): peak {k_} got indices {ind[pos[k_]].tolist()} instead of {ij}")
             if not is_invalid(r):
                 if len(r.indices) != int(r.selector.sum()):
                     msgs.append("len(indices) != number of selected peaks")
